@@ -1,0 +1,17 @@
+//go:build verif
+// +build verif
+
+package state
+
+import "sync"
+
+// Verification hooks (build tag verif): Walk replays rolled-back pending transactions in a
+// goroutine; a deterministic harness needs to know when that replay has finished.
+
+var verifRecoverWG sync.WaitGroup
+
+func verifRecoverStart() { verifRecoverWG.Add(1) }
+func verifRecoverDone()  { verifRecoverWG.Done() }
+
+// VerifWaitRecover blocks until every recoverUnconfirmedTx started so far has returned.
+func VerifWaitRecover() { verifRecoverWG.Wait() }
